@@ -619,6 +619,15 @@ func c03AttrsSuite(r *Result, rng *rand.Rand, tier string) {
 var c03GKeyStyles = []string{"conv-id", "conv-id", "conv-id-renamed", "conv-id-renamed", "conv-id-readonly", "tagged-other", "tagged-string", "composite", "manual-int",
 	"id-plus-tagged", "autoinc-tag", "dbgen-string", "embedded-id", "embedded-id", "none", "conv-id-nolower", "conv-id-named", "col-id"}
 
+// the key styles of the tree under test: with the repair of F28 (regenerated fact Gen.priorityNeedsColumn) a field named ID
+// that has no column is ordinary input space — it must simply be no key
+func c03GKeyStylesNow() []string {
+	if c03Facts().PriorityNeedsColumn {
+		return append(append([]string{}, c03GKeyStyles...), "ignored-id", "ignored-id")
+	}
+	return c03GKeyStyles
+}
+
 var c03GRunTypes = []string{"int64", "int64", "int32", "uint", "string", "string", "bool", "float64", "time", "bytes", "*int64", "*string", "MyI32", "MyStr", "NullInt64", "NullString", "CUpper", "CShift", "CVPair", "json:struct", "json:[]string", "self:doc"}
 
 var c03GRunPerms = []struct {
@@ -824,6 +833,14 @@ func c03GGenRun(rng *rand.Rand, key string, f27 bool) (nodes []c03GNode, noLower
 		}
 		e.Tag = strings.Join(parts, ";")
 		keyNodes = []c03GNode{e}
+	case "ignored-id":
+		// generated only on a tree that carries the repair of F28: an ID without column is no key — alone (the model has no
+		// primary key at all) or next to a tagged key
+		id := c03GNode{Name: "ID", T: []string{intKeyT, "string"}[rng.Intn(2)], Tag: []string{"-", "-:all", "-;primaryKey", "->;-"}[rng.Intn(4)], NoCol: true, NoC: true, NoR: true}
+		keyNodes = []c03GNode{id}
+		if rng.Intn(2) == 0 {
+			keyNodes = append(keyNodes, c03GNode{Name: "Code", T: intKeyT, Tag: "primaryKey", GenKey: true})
+		}
 	case "none":
 	}
 	names := []string{"Name", "Note", "Rank", "Serial", "Amount", "Flag", "Title"}
@@ -1291,13 +1308,15 @@ func c03DeclSuite(r *Result, rng *rand.Rand, tier string) {
 		n = 12000
 	}
 	for i := 0; i < n && !expired(); i++ {
-		in := c03GRunInput{Seed: rng.Int63(), Key: c03GKeyStyles[rng.Intn(len(c03GKeyStyles))], Shape: []string{"single", "values", "pointers", "batches"}[rng.Intn(4)],
+		styles := c03GKeyStylesNow()
+		in := c03GRunInput{Seed: rng.Int63(), Key: styles[rng.Intn(len(styles))], Shape: []string{"single", "values", "pointers", "batches"}[rng.Intn(4)],
 			N: 1 + rng.Intn(4), Returning: rng.Intn(3) != 0, Where: []string{"plain", "plain", "tx", "prepare", "skiptx"}[rng.Intn(5)]}
 		switch i {
 		case 0: // probe of finding F27 (witness of C03_readonly_literal_default_counterexample)
 			in = c03GRunInput{Seed: 1, Key: "probe", Shape: "single", N: 1, Returning: true, Where: "plain", Probe: "F27",
 				Nodes: []c03GNode{{Name: "ID", T: "uint", GenKey: true}, {Name: "V", T: "int64", Tag: "->;default:42", NoC: true, Def: "lit", Want: "42"}, {Name: "Payload", T: "string", Tag: "column:payload", Col: "payload"}}}
-		case 1: // probe of finding F28 (witness of C03_ignored_id_counterexample)
+		case 1: // probe of finding F28 (witness of C03_ignored_id_counterexample; on a repaired tree it is judged like any other
+			// input: AutoMigrate and Create succeed, the table has no column for ID, the record is read back — C03_ignored_id_repaired)
 			in = c03GRunInput{Seed: 2, Key: "probe", Shape: "single", N: 1, Returning: true, Where: "plain", Probe: "F28",
 				Nodes: []c03GNode{{Name: "ID", T: "int64", Tag: "-", NoCol: true, NoC: true, NoR: true}, {Name: "Payload", T: "string", Tag: "column:payload", Col: "payload"}}}
 		}
